@@ -377,9 +377,33 @@ def _report(ctx, viols, drifts, blocks, scen_by_scn, what):
 
 # ------------------------------------------------------------------ the check
 
+def _replay(ctx):
+    """--replay: TLC evaluates the traces stored in a replay file again (with the current specification)"""
+    rp = json.load(open(ctx.replay))
+    mblocks, ablocks = {}, {}
+    for v in rp.get("violations", []):
+        tr = (v.get("detail") or {}).get("trace") or []
+        if tr:
+            (ablocks if tr[0]["scn"] >= 300000 else mblocks)[tr[0]["scn"]] = tr
+    if not mblocks and not ablocks:
+        raise vf.Inconclusive("the replay file holds no trace")
+    vf._scratch_spec_dir(ctx, "w")
+    n = st = 0
+    for module, blocks, what in (("Trace_SchemaMeta", mblocks, "metadata cache"), ("Trace_SchemaAgree", ablocks, "schema agreement")):
+        if blocks:
+            v, d, s, lines, states = _monitor(ctx, module, module + ".cfg", blocks, "replay_" + module, 1)
+            _report(ctx, v, d, blocks, {}, what)
+            n += lines
+            st += states
+    ctx.cov = dict(states=st, transitions=st, traces_validated_against_impl=0, events_evaluated_by_tlc=n,
+                   samples=[dict(kind="stored trace evaluated again", scenarios=sorted(list(mblocks) + list(ablocks))[:20])])
+
+
 def run(ctx):
     quick = ctx.tier == "quick"
     ctx.level = "model_checking"
+    if getattr(ctx, "replay", None):
+        return _replay(ctx)
     rng = random.Random(ctx.seed)
     vf._scratch_spec_dir(ctx, "w")
     pool = cf.ThreadPoolExecutor(max_workers=8 if quick else 10)
